@@ -71,3 +71,71 @@ Proof. lia. Qed.
 
 Lemma rev_py_chars s : rev (py_chars s) = py_chars (rev s).
 Proof. unfold py_chars. symmetry. apply map_rev. Qed.
+
+(* ------------------------------------------------------------------ *)
+(* decimal text and format                                              *)
+
+Lemma py_digits_le_zero_fuel_irrelevant f : py_digits_le (S f) 0 = [48].
+Proof. reflexivity. Qed.
+
+(* the digits are digits *)
+Lemma py_digits_le_digits fuel : forall n, 0 <= n -> Forall (fun c => py_is_digit c = true) (py_digits_le fuel n).
+Proof.
+  induction fuel as [|f IH]; intros n Hn; cbn [py_digits_le]; [constructor|].
+  destruct (Z.ltb_spec n 10).
+  - constructor; [|constructor]. unfold py_is_digit. apply andb_true_intro; split; apply Z.leb_le; lia.
+  - constructor; [|apply IH; apply Z.div_pos; lia].
+    pose proof (Z.mod_pos_bound n 10 ltac:(lia)). unfold py_is_digit. apply andb_true_intro; split; apply Z.leb_le; lia.
+Qed.
+
+(* format(n, "0W") for n >= 0: zeros in front up to the width *)
+Lemma py_format_int_zero_pad w n : 0 <= n ->
+  py_format_int 48 61 w n = repeat 48 (Z.to_nat (w - py_len (py_str_of_nat n))) ++ py_str_of_nat n.
+Proof.
+  intros H. unfold py_format_int, py_pad. destruct (Z.ltb_spec n 0); [lia|].
+  rewrite Z.abs_eq by exact H. cbn [app]. change (py_len (@nil Z)) with 0. rewrite Z.sub_0_r. reflexivity.
+Qed.
+
+Lemma py_str_of_int_nonneg n : 0 <= n -> py_str_of_int n = py_str_of_nat n.
+Proof. intros H. unfold py_str_of_int. destruct (Z.ltb_spec n 0); [lia|reflexivity]. Qed.
+
+(* ------------------------------------------------------------------ *)
+(* values of run-time type                                              *)
+
+Lemma py_as_int_cases v z : py_as_int v = Some z -> v = VInt z \/ exists b, v = VBool b /\ z = py_int_of_bool b.
+Proof. destruct v; cbn; try discriminate; intros [= <-]; [right; eauto|left; reflexivity]. Qed.
+
+Lemma py_mul_dyn_ints a b x y : py_as_int a = Some x -> py_as_int b = Some y -> py_mul_dyn a b = Ok (VInt (x * y)).
+Proof.
+  intros Ha Hb. destruct (py_as_int_cases _ _ Ha) as [->|(ba & -> & ->)], (py_as_int_cases _ _ Hb) as [->|(bb & -> & ->)];
+    reflexivity.
+Qed.
+
+Lemma py_add_dyn_ints a b x y : py_as_int a = Some x -> py_as_int b = Some y -> py_add_dyn a b = Ok (VInt (x + y)).
+Proof.
+  intros Ha Hb. destruct (py_as_int_cases _ _ Ha) as [->|(ba & -> & ->)], (py_as_int_cases _ _ Hb) as [->|(bb & -> & ->)];
+    reflexivity.
+Qed.
+
+(* s[1:] *)
+Lemma py_slice_tail {A} (l : list A) : py_slice l (Some 1) None = skipn 1 l.
+Proof.
+  unfold py_slice, py_clamp, py_len. destruct l as [|x r]; [reflexivity|].
+  cbn [length]. change (1 <? 0) with false. cbv iota.
+  replace (Z.max 0 (Z.min (Z.of_nat (S (length r))) 1)) with 1 by lia.
+  change (Z.to_nat 1) with 1%nat. cbn [skipn].
+  replace (Z.to_nat (Z.of_nat (S (length r)) - 1)) with (length r) by lia. apply firstn_all.
+Qed.
+
+Lemma py_join_cons sep p q r : py_join sep (p :: q :: r) = p ++ sep ++ py_join sep (q :: r).
+Proof. cbn [py_join flat_map]. rewrite <- app_assoc. reflexivity. Qed.
+
+Lemma py_encode_utf8_ascii s : Forall (fun c => c < 128) s -> py_encode_utf8 s = Ok s.
+Proof.
+  intros H. unfold py_encode_utf8.
+  assert (existsb py_is_surrogate s = false) as ->.
+  { induction H as [|c r Hc Hr IH]; [reflexivity|]. cbn [existsb]. rewrite IH.
+    unfold py_is_surrogate. destruct (Z.leb_spec 55296 c); [lia|reflexivity]. }
+  f_equal. induction H as [|c r Hc Hr IH]; [reflexivity|]. cbn [flat_map]. rewrite IH.
+  unfold py_utf8_char. destruct (Z.ltb_spec c 128); [reflexivity|lia].
+Qed.
